@@ -82,6 +82,46 @@ func runE2E(t *rapid.T, scn e2eScn, w *e2eWorld, pl payload, sel datamodel.Node,
 	released := false
 	var chid datatransfer.ChannelID
 	chidKnown := make(chan struct{})
+	// A process is replaced at a quiet moment, not in the middle of a block: graphsync stores a
+	// block and the channel counts it in two steps that no property claims to be atomic. Before
+	// the receiver's process is replaced the harness waits until every block that reached its
+	// store has also been counted and nothing new has arrived for a while; what the old process
+	// still stored without counting it (blocks that were queued inside graphsync) is detected
+	// once that process is gone, and the Received total is then not judged for the scenario.
+	recv0 := recvStore.len()
+	receiverCutMidBlock := false
+	countedBlocks := func(n *e2eNode) int {
+		counted := 0
+		for _, e := range n.eventsOf(chid) {
+			if e.code == datatransfer.DataReceivedProgress {
+				counted++
+			}
+		}
+		return counted
+	}
+	replaceProcess := func(n *e2eNode) {
+		if n == receiver {
+			deadline := time.Now().Add(2 * time.Second)
+			stableSince, last := time.Now(), -1
+			for time.Now().Before(deadline) {
+				stored := recvStore.len() - recv0
+				if stored != last {
+					last, stableSince = stored, time.Now()
+				}
+				if stored == countedBlocks(n) && time.Since(stableSince) > 20*time.Millisecond {
+					break
+				}
+				time.Sleep(200 * time.Microsecond)
+			}
+		}
+		n.restartProcessWith(t, w.ctx, func() {
+			if n == receiver && recvStore.len()-recv0 != countedBlocks(n) {
+				receiverCutMidBlock = true
+				logf("the receiver's old process stored %d new blocks but counted %d", recvStore.len()-recv0, countedBlocks(n))
+			}
+		})
+	}
+
 	nextLimit := func() uint64 {
 		limitIdx++
 		if limitIdx < len(scn.limits) {
@@ -169,10 +209,10 @@ func runE2E(t *rapid.T, scn e2eScn, w *e2eWorld, pl payload, sel datamodel.Node,
 					case "cut-restart-responder":
 						err = b.mgr.RestartDataTransferChannel(w.ctx, chid)
 					case "process-restart-initiator":
-						a.restartProcess(t, w.ctx)
+						replaceProcess(a)
 						err = a.mgr.RestartDataTransferChannel(w.ctx, chid)
 					case "process-restart-responder":
-						b.restartProcess(t, w.ctx)
+						replaceProcess(b)
 						err = b.mgr.RestartDataTransferChannel(w.ctx, chid)
 					}
 					logf("restart returned %v", err)
@@ -228,10 +268,10 @@ func runE2E(t *rapid.T, scn e2eScn, w *e2eWorld, pl payload, sel datamodel.Node,
 					case "cut-restart-responder":
 						err = b.mgr.RestartDataTransferChannel(w.ctx, chid)
 					case "process-restart-initiator":
-						a.restartProcess(t, w.ctx)
+						replaceProcess(a)
 						err = a.mgr.RestartDataTransferChannel(w.ctx, chid)
 					case "process-restart-responder":
-						b.restartProcess(t, w.ctx)
+						replaceProcess(b)
 						err = b.mgr.RestartDataTransferChannel(w.ctx, chid)
 					}
 					logf("restart returned %v", err)
@@ -407,6 +447,11 @@ func runE2E(t *rapid.T, scn e2eScn, w *e2eWorld, pl payload, sel datamodel.Node,
 		rs, ss = as, bs
 	}
 	logf("totals: receiver received=%d sender queued=%d sent=%d unique payload=%d", rs.Received(), ss.Queued(), ss.Sent(), uniqueSize)
+	if receiverCutMidBlock && rs.Received() < uniqueSize && ss.Queued() == uniqueSize {
+		logMu.Lock()
+		defer logMu.Unlock()
+		return "receiver-replaced-mid-block", "", "", log
+	}
 	if rs.Received() != uniqueSize || ss.Queued() != uniqueSize {
 		return fail("C01/totals", "receiver Received=%d, sender Queued=%d, unique payload size=%d", rs.Received(), ss.Queued(), uniqueSize)
 	}
